@@ -209,7 +209,8 @@ func c17HeadersOnce(c *core.Ctx) {
 					})
 					// before the 200 status and the body write
 					for _, w := range u.Calls() {
-						if (w.Key == "io.Copy" || w.Key == "io.WriteString") && !g.Dominates(cl.Loc, w.Loc) {
+						// only writes whose destination is the response (the HTTP context)
+					if (w.Key == "io.Copy" || w.Key == "io.WriteString") && w.Arg(0) != nil && core.TypeName(u.Info().TypeOf(w.Arg(0))) == "HttpContext" && !g.Dominates(cl.Loc, w.Loc) {
 							merged = false
 						}
 					}
